@@ -337,13 +337,14 @@ PROPS['C14'] = {
 PROPS['C15'] = {
     'title': 'Interpolation, location and densification agree along a line',
     'level': 'proof',
-    'verus': ['c15_interpolate'],
+    'verus': ['c15_interpolate', 'c15_euclid'],
     'kani_extra': ['--no-memory-safety-checks', '--no-overflow-checks', '--no-assertion-reach-checks'],
     'kani': [
         ('geo', 'c15.rs', r'^c15_k_(line_interpolation|densify_linestring_|line_locate_point)', 'bounded', 'quick'),
         ('geo', 'c15.rs', r'^c15_k_linestring_interpolation$', 'bounded', 'thorough'),
     ],
-    'trusted': ['Verus unit c15_interpolate (unbounded, any metric space satisfying the trait contracts, exact ring scalar): clamping of the four Line forms; LineString::point_at_distance_from_start is the arc-length walk for every length of line string (None exactly for the empty one)',
+    'trusted': ['Verus unit c15_euclid: Euclidean point_at_ratio_between (= start + (end - start) * t exactly, axis by axis; t = 0 / 1 give the end points) and point_at_distance_between (= start + ((end - start) * d) / hypot(end - start), quotient named not evaluated) through the real Add / Sub / Mul<T> / Div<T> impls of Point and Coord; exact ring scalar, hypot abstract, the division never panics (floats)',
+                'Verus unit c15_interpolate (unbounded, any metric space satisfying the trait contracts, exact ring scalar): clamping of the four Line forms; LineString::point_at_distance_from_start is the arc-length walk for every length of line string (None exactly for the empty one)',
                 'the generic interpolation / densification code is instantiated with an ABSTRACT exact metric on the x-axis (AxisMetric): what is decided is the walk / clamping / duality / vertex-preservation logic for every metric space satisfying the trait contracts, not the Euclidean, Haversine, geodesic or rhumb kernels',
                 'bounded: Line (all integer end points in [-8,8], distances on the half-integer grid in [-4,24]); 3-vertex LineString incl. repeated vertices and back-tracking (thorough); densify of a fixed 4-vertex polyline with max in {2,4,16}'],
     'undecided_clauses': [
